@@ -20,6 +20,7 @@ type task struct {
 	name  string
 	vc    vclock
 	locks []*value
+	daemon bool // engine-provided pseudo task (ticker): not part of the program's goroutines
 }
 
 type scheduler struct {
@@ -107,7 +108,7 @@ func (s *scheduler) taskExit(t *task) {
 func (s *scheduler) describe() string {
 	var sb strings.Builder
 	for _, t := range s.tasks {
-		if t.done {
+		if t.done || t.daemon {
 			continue
 		}
 		fmt.Fprintf(&sb, "[task %d %s blocked on %s] ", t.id, t.name, t.what)
@@ -228,7 +229,7 @@ func (s *scheduler) quiesce() int {
 	me := s.cur
 	s.block(func() bool {
 		for _, t := range s.tasks {
-			if t != me && t.enabled() {
+			if t != me && !t.daemon && t.enabled() {
 				return false
 			}
 		}
@@ -236,7 +237,7 @@ func (s *scheduler) quiesce() int {
 	}, "quiesce")
 	n := 0
 	for _, t := range s.tasks {
-		if t != me && !t.done {
+		if t != me && !t.done && !t.daemon {
 			n++
 		}
 	}
@@ -475,4 +476,72 @@ type timerObj struct {
 	c     *channel
 	fires int
 	stop  bool
+}
+
+// ---- time.Ticker / time.Timer / time.After: a daemon task that may
+// deliver a tick at any scheduling point, at most cfg "ticks" times.
+
+func (s *scheduler) spawnDaemon(name string, body func(t *task)) *task {
+	t := &task{id: len(s.tasks), wake: make(chan bool, 1), name: name, daemon: true}
+	t.vc = s.cur.vc.fork(s.cur.id, t.id)
+	s.tasks = append(s.tasks, t)
+	s.wg.Add(1)
+	go func() {
+		defer s.wg.Done()
+		if ok := <-t.wake; !ok {
+			t.done = true
+			return
+		}
+		defer func() {
+			r := recover()
+			t.done = true
+			if s.closing {
+				return
+			}
+			if r != nil {
+				if ea, ok := r.(engineAbort); ok {
+					if s.abort == nil {
+						s.abort = &ea
+					}
+				} else {
+					s.abort = &engineAbort{"internal", fmt.Sprintf("host panic in daemon %s: %v", name, r)}
+				}
+				s.handoff(s.tasks[0])
+				return
+			}
+			s.taskExit(t)
+		}()
+		body(t)
+	}()
+	return t
+}
+
+func (i *interpreter) newTicker(once bool) *timerObj {
+	s := i.sched
+	tm := &timerObj{c: i.newChan(1, nil)}
+	max := i.cfg.Params["ticks"]
+	if max == 0 {
+		max = 1
+	}
+	if once {
+		max = 1
+	}
+	s.timers = append(s.timers, tm)
+	s.spawnDaemon("ticker", func(t *task) {
+		for tm.fires < max {
+			s.block(func() bool { return tm.stop || len(tm.c.buf) == 0 }, "ticker idle")
+			if tm.stop {
+				// a stopped ticker stays silent; wait for a Reset
+				s.block(func() bool { return !tm.stop }, "ticker stopped")
+				continue
+			}
+			tm.fires++
+			tm.c.buf = append(tm.c.buf, i.timeValue())
+			tm.c.bufvc = append(tm.c.bufvc, t.vc.copy())
+			t.vc.tick(t.id)
+			// give the receiver a chance before the next tick
+			s.block(func() bool { return tm.stop || len(tm.c.buf) == 0 }, "ticker delivered")
+		}
+	})
+	return tm
 }
